@@ -64,7 +64,7 @@ RateVerdict(e) ==
       comp == wf /\ Computable(m, c)
       dom  == comp /\ InDomainRate(m, c)
       shp  == wf /\ HasShape(e)
-      needX == comp /\ shp /\ ObsFinite(e) /\ (Want \cap {"C01", "C02", "C05", "C07", "C04", "C16", "C03", "C15"} # {})
+      needX == comp /\ shp /\ ObsFinite(e) /\ (Want \cap {"C01", "C02", "C05", "C06", "C07", "C04", "C16", "C03", "C15"} # {})
       X    == IF needX THEN RateX(m, c) ELSE <<>>
       vals == IF wf THEN OutcomeVals(c) ELSE <<>>
       tau  == IF comp THEN EffTau(m, c) ELSE "0"
